@@ -38,6 +38,7 @@ import (
 	"fmt"
 	"math/big"
 	"reflect"
+	"runtime"
 	"sort"
 	"strings"
 	"sync"
@@ -97,7 +98,7 @@ type c13Frame struct {
 	argsPtr  unsafe.Pointer
 	callerH  c13Hdr
 	rcptH    c13Hdr
-	value    *big.Int // the CallValue pointer handed in
+	value    *big.Int                   // the CallValue pointer handed in
 	snap     vmcommon.ContractCallInput // deep copy of the input
 }
 
@@ -644,7 +645,86 @@ func runC13(c *ctx) {
 		sysShard := uint32(wi % nSh)
 		mkGas := func() map[string]map[string]uint64 { return distinctGas(uint64(10+7*wi), 3) }
 		w := u.stdWorld(nSh, sysShard, mkGas())
+		u.rich = false
 		u.populate(w)
+		var tour []func() *worldOp
+		if wi%2 == 1 { // every other world: the rich holdings and the fixed tour of §4.2 (state shapes, flag combinations, reused objects)
+			u.populateRich(w)
+			tour = richTour(u, w)
+		}
+		// Sequential tour (rich worlds): the tour steps run one after the other on this goroutine with ONE processor and no garbage
+		// collection in between (what a call leaves in a sync.Pool or a package-level cache is then what the next call finds); the
+		// pre-state and the canonical result of every step are kept.  Afterwards every step is executed again on never used function
+		// objects over its saved pre-state, each time after two garbage collections (which empty every pool): a result that depends on
+		// what earlier calls left behind differs between the two runs, whatever the scheduler does.
+		if tour != nil {
+			type later struct {
+				seq    *hWorld
+				cs     *callSpec
+				canonA string
+				hist   []string
+				pre    map[string]*hAccount
+			}
+			var ls []later
+			old := runtime.GOMAXPROCS(1)
+			var thist []string
+			var tpend []*worldOp
+			for ti := 0; ti < len(tour) || len(tpend) > 0; {
+				var op *worldOp
+				if len(tpend) > 0 {
+					op, tpend = tpend[0], tpend[1:]
+				} else {
+					op = tour[ti]()
+					ti++
+				}
+				cs := c13SpecOf(w, op)
+				thist = append(thist, op.String())
+				if cs == nil {
+					continue
+				}
+				seq := u.stdWorld(nSh, sysShard, mkGas())
+				c13CopyState(seq, w)
+				preDigest := w.digest()
+				had := map[int]bool{}
+				for _, m := range w.inflight {
+					had[m.ID] = true
+				}
+				resA, _ := c13Exec(w, cs, false)
+				execs++
+				ls = append(ls, later{seq: seq, cs: cs, canonA: c13Canon(w, resA), hist: append([]string(nil), thist...), pre: resA.Pre})
+				// repetition: the same call at once again on an equal world (its own, never used objects), same goroutine, nothing in between
+				rep2 := u.stdWorld(nSh, sysShard, mkGas())
+				c13CopyState(rep2, seq)
+				resR, _ := c13Exec(rep2, cs, false)
+				execs++
+				if cr := c13Canon(rep2, resR); cr != ls[len(ls)-1].canonA {
+					c13Fail(c, "nondeterministic/"+cs.Fn, fmt.Sprintf("%s: executed twice in a row on equal worlds, the two results differ %s", cs.Fn, c13FirstDiff(ls[len(ls)-1].canonA, cr)),
+						map[string]interface{}{"call": describeCall(cs), "pre": digestAccounts(resA.Pre), "history": histReplay(thist)})
+				}
+				c13Settle(w, op, cs, resA)
+				if op.Kind == opTx || op.Kind == opSys {
+					for _, m := range w.inflight {
+						if !had[m.ID] {
+							tpend = append(tpend, &worldOp{Kind: opDeliver, ID: m.ID, Gas: m.GasLimit})
+						}
+					}
+				}
+				c.count("tour/" + cs.Fn + "/" + statusName(resA.Status))
+				c.note(fmt.Sprintf("%d/tour/%s/%s", wi, preDigest, op.String()), true)
+				c.addExecCase(w, cs, resA)
+			}
+			runtime.GOMAXPROCS(old)
+			for _, l := range ls {
+				runtime.GC()
+				runtime.GC()
+				resD, _ := c13Exec(l.seq, l.cs, false)
+				execs++
+				if canonD := c13Canon(l.seq, resD); canonD != l.canonA {
+					c13Fail(c, "nondeterministic/"+l.cs.Fn, fmt.Sprintf("%s: the result depends on what earlier calls left behind (function objects and package state used by the whole tour vs. never used objects after the pools were emptied) %s", l.cs.Fn, c13FirstDiff(l.canonA, canonD)),
+						map[string]interface{}{"call": describeCall(l.cs), "pre": digestAccounts(l.pre), "history": histReplay(l.hist)})
+				}
+			}
+		}
 		rep := u.stdWorld(nSh, sysShard, mkGas()) // B: long-lived replica
 		baseW := c13CheckPrefixes(c, w, nil, "after construction")
 		baseR := c13CheckPrefixes(c, rep, nil, "after construction")
@@ -741,5 +821,5 @@ func runC13(c *ctx) {
 	}
 	c.rep.Extra = map[string]interface{}{"executions": execs, "prefix_checks": prefixChecks, "prefix_slices_per_world": nPrefix,
 		"repeated_failures_suppressed": suppressed,
-		"go_prefix_caps": fmt.Sprintf("roleKeyPrefix len=%d cap=%d, noncePrefix len=%d cap=%d", len(c13RoleKeyPrefix), cap(c13RoleKeyPrefix), len(c13NoncePrefix), cap(c13NoncePrefix))}
+		"go_prefix_caps":               fmt.Sprintf("roleKeyPrefix len=%d cap=%d, noncePrefix len=%d cap=%d", len(c13RoleKeyPrefix), cap(c13RoleKeyPrefix), len(c13NoncePrefix), cap(c13NoncePrefix))}
 }
